@@ -42,6 +42,8 @@ def cases(rng, tier):
         for sh in ("tiny-before-big", "many-folders", "link-of-member-size", "memory-short"):
             out.append({"shape": sh, "chain": "ZSTD" if sh == "tiny-before-big" else "LZMA2", "texture": "random" if sh == "tiny-before-big" else "zeros", "mib": 900 if sh == "tiny-before-big" else 400,
                         "sinks": [], "position": sh})
+        out.append({"shape": "big-dictionaries", "chain": "LZMA2", "texture": "zeros", "mib": 70, "sinks": [], "position": "big-dictionaries"})
+        out.append({"shape": "many-buffers", "chain": "ZSTD", "texture": "period", "mib": 8, "sinks": [], "position": "many-buffers"})
     else:
         for ch in CHAINS:
             for tex in ("zeros", "period", "random"):
@@ -52,6 +54,9 @@ def cases(rng, tier):
                                  ("many-folders", "LZMA2", "zeros", 400), ("many-folders", "ZSTD", "zeros", 600), ("many-folders", "BZIP2", "zeros", 300),
                                  ("link-of-member-size", "LZMA2", "zeros", 400), ("link-of-member-size", "COPY", "zeros", 1024), ("memory-short", "LZMA2", "zeros", 400), ("memory-short", "ZSTD", "period", 1024)):
             out.append({"shape": sh, "chain": ch, "texture": tex, "mib": mib, "sinks": [], "position": sh})
+        out.append({"shape": "big-dictionaries", "chain": "LZMA2", "texture": "zeros", "mib": 70, "sinks": [], "position": "big-dictionaries"})
+        for ch in ("ZSTD", "LZMA2", "COPY"):
+            out.append({"shape": "many-buffers", "chain": ch, "texture": "period", "mib": 8, "sinks": [], "position": "many-buffers"})
     return out
 
 
@@ -354,6 +359,54 @@ def _run_shape(case, d, arc, filters, pw, size, measure, viol, obs):
         obs["link_members_seen"] = 1 if res.get("link") else 0
         if not res.get("link"):
             viol.append({"key": "harness/link-attribute-lost", "what": "%s: the member does not read back as a link" % tag})
+    elif shape == "big-dictionaries":
+        # 14 folders (sessions), each packed with a 64 MiB dictionary (7-Zip 'ultra'): a decoder's dictionary belongs to its folder
+        # while the folder is being read, not to the archive for the rest of the session (sixth hunt)
+        filt = [{"id": P.FILTER_LZMA2, "preset": 1, "dict_size": 64 << 20}]
+        want = {}
+
+        def write():
+            for i in range(14):
+                s_ = GenStream(size, "zeros", seed=i + 1)
+                with py7zr.SevenZipFile(arc, "w" if i == 0 else "a", filters=filt) as z:
+                    z.writef(s_, "m%02d.bin" % i)
+                want["m%02d.bin" % i] = (size, s_.crc)
+
+        if measure("write", write) is not None:
+            return
+        obs["archive_mib"] = os.path.getsize(arc) >> 20
+        for label, opener in (("extract:factory", lambda: py7zr.SevenZipFile(open(arc, "rb"), "r")), ("extract:factory-by-name", lambda: py7zr.SevenZipFile(arc, "r")), ("testzip", lambda: py7zr.SevenZipFile(arc, "r"))):
+            fac = CountFactory()
+
+            def run():
+                with opener() as z:
+                    if label == "testzip":
+                        z.testzip()
+                    else:
+                        z.extractall(factory=fac)
+
+            if measure(label, run) is None and label != "testzip":
+                check_big(fac, sorted(want), want)
+    elif shape == "many-buffers":
+        # 120 members of 8 MiB given as data, the caller keeping none of them: what is stored is done with
+        blob_src = GenStream(size, case["texture"])
+        blob = blob_src.read(size)
+        while len(blob) < size:
+            blob += blob_src.read(size - len(blob))
+
+        def write_str():
+            with py7zr.SevenZipFile(arc, "w", filters=filters, password=pw) as z:
+                for i in range(120):
+                    z.writestr(bytes(blob), "s%03d.bin" % i)
+
+        def write_f():
+            with py7zr.SevenZipFile(arc, "w", filters=filters, password=pw) as z:
+                for i in range(120):
+                    z.writef(io.BytesIO(bytes(blob)), "f%03d.bin" % i)
+
+        measure("write:writestr", write_str)
+        measure("write:writef", write_f)
+        obs["archive_mib"] = os.path.getsize(arc) >> 20
     elif shape == "memory-short":
         # the machine is short of memory (psutil reports 200 MB available): the extraction chunk must shrink, not vanish
         src = GenStream(size, case["texture"])
